@@ -400,13 +400,11 @@ struct C06 : World {
   const char* name() const override { return "c06"; }
   const char* property() const override { return "C06"; }
 
-  // Inputs that trigger defects already reported (see the final report of this world's author); the
-  // oracle is unchanged and the replay files keep failing, only generate() steers around them so
-  // that the rest of the space stays explorable.  Set to false once /repo is repaired.
-  static constexpr bool AVOID_RAW_OVERFLOW_STUCK = false;   // raw line that does not fit -> mux rejects every later frame
-  static constexpr bool AVOID_RAW_ONE_BYTE_GAP = false;     // raw line + one byte stuffing gap -> assert in encode_stuffing
-  static constexpr bool AVOID_ZERO_LINE_AFTER_RAW = false;  // Teletext line 0 after a raw line of field 2 -> wrong field_parity
-  static constexpr bool AVOID_TS_FIRST_SINGLE_PACKET = false;  // TS demux drops a 184 byte PES packet met while synchronising
+  // The generator used to steer around five defects of dvb_mux.c / dvb_demux.c (a raw line that does not fit
+  // left the multiplexer unusable; a raw line followed by a one byte stuffing gap: assertion, or a corrupt
+  // data unit when the raw unit had the maximum length; an undefined Teletext line after a raw line got the
+  // wrong field_parity; the TS demultiplexer dropped a 184 byte PES packet met while synchronising).  They
+  // are repaired in /repo; the minimised replays are in regress/C06/ and nothing is avoided any more.
 
   Plan generate(uint64_t seed, const std::string& tier) override {
     Plan p; p.world = name(); p.seed = seed;
@@ -425,6 +423,8 @@ struct C06 : World {
     p.knobs["pay_mode"] = r.chance(1, 2) ? 0 : (int64_t)r.below(4);
     bool with_raw = r.chance(1, 3);
     int bpl = r.chance(1, 3) ? 720 : r.chance(1, 2) ? 1 + (int)r.below(720) : 1 + (int)r.below(300);
+    // multiples of 251 samples end a line with a data unit of the maximum length (no room for a stuffing byte)
+    if (with_raw && r.chance(1, 8)) { static const int edge[] = {251, 502, 250, 252, 40, 80}; bpl = edge[r.below(6)]; }
     p.knobs["sp_bpl"] = bpl;
     p.knobs["sp_offset"] = 132 + (int64_t)r.below((uint64_t)(720 - bpl + 1));
     int c0 = (int)r.below(20), c1 = (int)r.below(20);
@@ -442,28 +442,21 @@ struct C06 : World {
     bool invalid_frames = r.chance(1, 2);
     bool var_cfg = r.chance(2, 3);
     int nframes = 1 + (int)r.below(tier == "thorough" ? 24 : 10);
-    int cur_di = 0x10; int64_t cur_max = 65504;
     auto cfg_op = [&](int what, int64_t a, int64_t b) { Op o; o.task = 0; o.kind = "cfg"; o.a = {what, a, b}; p.ops.push_back(o); };
-    if (r.chance(3, 4)) { int k = (int)r.below(8); cfg_op(0, k, 0); cur_di = DI_TABLE[k]; }
-    if (r.chance(3, 4) || (ts && AVOID_TS_FIRST_SINGLE_PACKET)) {
+    if (r.chance(3, 4)) { int k = (int)r.below(8); cfg_op(0, k, 0); }
+    if (r.chance(3, 4)) {
       int64_t mn = 184 * (1 + (int64_t)r.below(4)), mx = mn + 184 * (int64_t)r.below(12);
-      if (ts && AVOID_TS_FIRST_SINGLE_PACKET && mn < 368) { mn = 368; if (mx < mn) mx = mn; }
       if (r.chance(1, 10)) mx = 65504;
       if (r.chance(1, 40)) mn = 184 * (int64_t)r.below(357);
       cfg_op(1, mn - (int64_t)r.below(3), mx + (int64_t)r.below(3));
-      cur_max = mx < mn ? mn : mx;
     }
     for (int f = 0; f < nframes; f++) {
       if (var_cfg && r.chance(1, 4)) {
-        if (r.chance(1, 2)) { int k = (int)r.below((uint64_t)NDI); cfg_op(0, k, 0); if (di_valid(DI_TABLE[k])) cur_di = DI_TABLE[k]; }
+        if (r.chance(1, 2)) { int k = (int)r.below((uint64_t)NDI); cfg_op(0, k, 0); }
         else {
           int64_t mn = r.chance(1, 8) ? (int64_t)r.below(70000) : 184 * (1 + (int64_t)r.below(6)) - (int64_t)r.below(2);
           int64_t mx = r.chance(1, 8) ? (int64_t)r.below(70000) : mn + 184 * (int64_t)r.below(10) + (int64_t)r.below(184);
-          if (ts && AVOID_TS_FIRST_SINGLE_PACKET && mn < 368) mn = 368;  // the first accepted frame may be any of them
           cfg_op(1, mn, mx);
-          int64_t emn = mn < 184 ? 184 : mn > 65504 ? 65504 : (mn + 183) / 184 * 184;
-          int64_t emx = mx < emn ? emn : mx > 65504 ? 65504 : mx / 184 * 184;
-          cur_max = emx;
         }
       }
       // lines of the frame: a sorted subset of the permitted lines, sometimes spoiled
@@ -491,7 +484,6 @@ struct C06 : World {
         int nz = 1 + (int)r.below(3);
         for (int k = 0; k < nz; k++) {
           size_t pos = 1 + (size_t)r.below(ls.size());
-          if (AVOID_ZERO_LINE_AFTER_RAW) { bool raw_before = false; for (size_t q = 0; q < pos; q++) if (ls[q].second == 7) raw_before = true; if (raw_before) continue; }
           ls.insert(ls.begin() + (long)pos, {0, (int)r.below(3)});
         }
       }
@@ -509,24 +501,6 @@ struct C06 : World {
       }
       int mask_sel = r.chance(2, 3) ? 0 : (int)r.below((uint64_t)NMASKS);
       int rawmode = with_raw ? (r.chance(5, 6) ? 1 : (int)r.below(5)) : (r.chance(7, 8) ? 0 : (int)r.below(4));
-      if (AVOID_RAW_OVERFLOW_STUCK || AVOID_RAW_ONE_BYTE_GAP) {
-        // keep frames with raw lines clearly inside the packet and away from a one byte stuffing gap
-        bool fx = fixed_di(cur_di);
-        for (int guard = 0; guard < 64; guard++) {
-          int64_t need = 46; int nraw = 0;
-          for (auto& l : ls) {
-            if (!(SVC[l.second].id & MASKS[mask_sel])) continue;
-            Cls c = SVC[l.second].cls;
-            if (c == C_RAW) { nraw++; need += fx ? 46 * ((bpl + 39) / 40) : bpl + 6 * ((bpl + 250) / 251) + 6; }
-            else need += fx ? 46 : c == C_TTX ? 46 : c == C_VPS ? 16 : 5;
-          }
-          if (!nraw) break;
-          bool bad = (AVOID_RAW_OVERFLOW_STUCK && need + 16 > cur_max);
-          if (AVOID_RAW_ONE_BYTE_GAP && !fx) bad = true;  // the gap depends on the segmentation: use the fixed length format only
-          if (!bad) break;
-          for (size_t q = ls.size(); q-- > 0;) if (ls[q].second == 7) { ls.erase(ls.begin() + (long)q); break; }
-        }
-      }
       for (auto& l : ls) { Op o; o.task = 0; o.kind = "ln"; o.a = {l.first, l.second, (int64_t)r.below(1000000)}; p.ops.push_back(o); }
       Op o; o.task = 0; o.kind = "frame";
       int64_t pts;
@@ -816,6 +790,7 @@ struct C06 : World {
       if (pp.data_identifier != cfg.di) { ctx.fail("oracle:pes-data-identifier", "frame %d: data_identifier %02x, configured %02x", frames_fed, pp.data_identifier, cfg.di); return false; }
       if (pp.pts != (pts & PTS_MASK)) { ctx.fail("oracle:pes-pts", "frame %d: PTS %llx encoded, %llx given", frames_fed, (unsigned long long)pp.pts, (unsigned long long)(pts & PTS_MASK)); return false; }
       if (pp.stuffed_inside) ctx.count("stuffing_byte_inside_unit");
+      if (!pp.du.empty() && pp.du.back().id == 0xC6 && pp.du.back().npix == 251) ctx.count("raw_unit_of_maximum_length_last");
       size_t d = 0;
       for (size_t i = 0; i < exp_lines.size(); i++) {
         const Line& e = exp_lines[i];
